@@ -18,11 +18,13 @@ FAMILY = {
     "restart": ("MC_Restart.tla", "MC_Restart.cfg", (3, 1), [(4, 1), (3, 2)]),
     # three validators on three seats, two warm-up blocks: the stake limiter is consulted (and refuses)
     "limiter": ("MC_Limiter.tla", "MC_Limiter.cfg", (2, 1), [(2, 2)]),
+    # a mempool check (CheckTx) of any transaction of the menu interleaved at any point; every clause judges those steps too
+    "mempool": ("MC_Mempool.tla", "MC_Mempool.cfg", (1, 1), [(2, 1)]),
 }
 PROP_FAMILY = {
     "C02": ["value", "stake"], "C03": ["value"], "C04": ["value"], "C05": ["value", "limiter", "gov"], "C16": ["value", "gov"],
     "C10": ["stake", "limiter"], "C11": ["stake", "limiter"], "C12": ["stake"], "C13": ["stake"], "C14": ["stake", "gov"],
-    "C15": ["gov"], "C19": ["value"], "C07": ["restart"],
+    "C15": ["gov"], "C19": ["value"], "C07": ["restart"], "C06": ["mempool"],
 }
 SPECS = ("BigNat.tla", "RigoProps.tla", "RigoMon.tla", "RigoCore.tla", "MC_Rigo.tla")
 
